@@ -4,7 +4,10 @@
 // with the specification; fixed-length responses are repeated against an endpoint whose
 // maximum response size sits around the exact serialised size.
 #include "common/netkit.h"
+#include "common/reqspec.h"
 #include "common/respspec.h"
+
+#include <condition_variable>
 
 #include <mutex>
 
@@ -187,6 +190,174 @@ namespace
     }
 }
 
+namespace
+{
+    // ---- request half: pistache client -> raw capturing server --------------------------------
+    struct Capture
+    {
+        std::mutex m;
+        std::condition_variable cv;
+        std::vector<net::Message> msgs;
+        std::vector<std::string> errors;
+    };
+    Capture g_cap;
+    uint16_t g_cap_port = 0;
+    std::unique_ptr<Http::Experimental::Client> g_client;
+
+    void capture_server(int lfd)
+    {
+        for (;;)
+        {
+            int fd = ::accept(lfd, nullptr, nullptr);
+            if (fd < 0)
+                return;
+            std::thread([fd] {
+                std::string carry, err;
+                for (;;)
+                {
+                    net::Message m;
+                    if (!net::read_message(fd, carry, false, m, 30000, err))
+                    {
+                        if (err.rfind("malformed", 0) == 0 || (!carry.empty() && err.rfind("eof", 0) == 0))
+                        {
+                            std::lock_guard<std::mutex> g(g_cap.m);
+                            g_cap.errors.push_back(err + " bytes: " + printable(carry, 300));
+                            g_cap.cv.notify_all();
+                        }
+                        break;
+                    }
+                    {
+                        std::lock_guard<std::mutex> g(g_cap.m);
+                        g_cap.msgs.push_back(m);
+                        g_cap.cv.notify_all();
+                    }
+                    static const char resp[] = "HTTP/1.1 200 OK\r\nContent-Length: 0\r\n\r\n";
+                    if (!net::send_all(fd, resp, sizeof resp - 1))
+                        break;
+                }
+                ::close(fd);
+            }).detach();
+        }
+    }
+
+    void start_capture()
+    {
+        int lfd = ::socket(AF_INET, SOCK_STREAM | SOCK_CLOEXEC, 0);
+        int one = 1;
+        setsockopt(lfd, SOL_SOCKET, SO_REUSEADDR, &one, sizeof one);
+        sockaddr_in a {};
+        a.sin_family      = AF_INET;
+        a.sin_addr.s_addr = htonl(INADDR_LOOPBACK);
+        a.sin_port        = 0;
+        if (::bind(lfd, reinterpret_cast<sockaddr*>(&a), sizeof a) != 0 || ::listen(lfd, 64) != 0)
+            abort();
+        socklen_t l = sizeof a;
+        getsockname(lfd, reinterpret_cast<sockaddr*>(&a), &l);
+        g_cap_port = ntohs(a.sin_port);
+        std::thread(capture_server, lfd).detach();
+    }
+
+    Verdict request_half(Choices& c, Report& rep)
+    {
+        ReqSpec req     = reqgen::make(c, 32 * 1024);
+        std::string ctx = "client request " + req.describe();
+        rep.label("request-half");
+        if (!req.body.empty() || !req.cookies.empty() || !req.headers.empty())
+            rep.nontrivial_case(fnv1a("Q" + ctx));
+        rep.sample(ctx);
+        size_t before;
+        {
+            std::lock_guard<std::mutex> g(g_cap.m);
+            before = g_cap.msgs.size();
+            g_cap.errors.clear();
+        }
+        auto done = std::make_shared<std::pair<std::mutex, bool>>();
+        try
+        {
+            auto p = reqgen::send(*g_client, "127.0.0.1:" + std::to_string(g_cap_port), req);
+            p.then([](Http::Response) {}, Async::IgnoreException);
+        }
+        catch (const std::exception& e)
+        {
+            return Verdict::fail("C05/client-send-throws", ctx + ": " + e.what());
+        }
+        net::Message m;
+        {
+            std::unique_lock<std::mutex> lk(g_cap.m);
+            bool ok = g_cap.cv.wait_for(lk, std::chrono::seconds(8), [&] { return g_cap.msgs.size() > before || !g_cap.errors.empty(); });
+            if (!ok)
+                return Verdict::fail("C05/timing/request-not-captured", ctx + ": no complete request reached the capturing server within 8 s");
+            if (!g_cap.errors.empty())
+                return Verdict::fail("C05/request-malformed", ctx + ": " + g_cap.errors[0]);
+            m = g_cap.msgs[before];
+        }
+        V_CHECK(m.method == Http::methodString(req.method), "C05/request-line", ctx + ": method on the wire " + m.method);
+        V_CHECK(m.version == "HTTP/1.1", "C05/request-line", ctx + ": version " + m.version);
+        std::string path = m.target.substr(0, m.target.find('?'));
+        V_CHECK(path == req.path, "C05/request-line", ctx + ": target path on the wire \"" + printable(m.target) + "\"");
+        std::set<std::string> gotq, wantq;
+        if (m.target.find('?') != std::string::npos)
+        {
+            std::string q = m.target.substr(m.target.find('?') + 1), cur;
+            for (char ch : q + "&")
+            {
+                if (ch == '&')
+                {
+                    V_CHECK(gotq.insert(cur).second, "C05/request-query", ctx + ": query pair repeated on the wire: " + printable(m.target));
+                    cur.clear();
+                }
+                else
+                    cur.push_back(ch);
+            }
+        }
+        for (auto& kv : req.query)
+            wantq.insert(kv.first + "=" + kv.second);
+        V_CHECK(gotq == wantq, "C05/request-query", ctx + ": query on the wire \"" + printable(m.target) + "\"");
+        V_CHECK(m.all("Host").size() == 1, "C05/request-host-count", ctx + ": Host appears " + std::to_string(m.all("Host").size()) + " times");
+        V_CHECK(m.all("User-Agent").size() == 1, "C05/request-user-agent-count", ctx + ": User-Agent appears " + std::to_string(m.all("User-Agent").size()) + " times");
+        auto cl = m.all("Content-Length");
+        V_CHECK(cl.size() == (req.body.empty() ? 0u : 1u), "C05/request-content-length", ctx + ": Content-Length appears " + std::to_string(cl.size()) + " times for a body of " + std::to_string(req.body.size()) + " bytes");
+        V_CHECK(m.all("Transfer-Encoding").empty(), "C05/request-framing", ctx + ": Transfer-Encoding on a client request");
+        V_CHECK(m.body == req.body, "C05/request-body", ctx + ": body on the wire has " + std::to_string(m.body.size()) + " bytes");
+        for (auto& h : req.headers)
+        {
+            auto v = m.all(h.name);
+            V_CHECK(v.size() == 1 && v[0] == h.text, "C05/request-header", ctx + ": header " + h.name + " appears " + std::to_string(v.size()) + " times" + (v.empty() ? "" : " as \"" + printable(v[0]) + "\""));
+        }
+        std::map<std::string, int> cnt;
+        for (auto& h : m.headers)
+        {
+            std::string l = h.first;
+            for (auto& ch : l)
+                ch = char(tolower(ch));
+            V_CHECK(++cnt[l] == 1, "C05/request-duplicate-header", ctx + ": header " + h.first + " written twice");
+        }
+        auto ck = m.all("Cookie");
+        std::set<std::string> wantc, gotc;
+        for (auto& kv : req.cookies)
+            wantc.insert(kv.first + "=" + kv.second);
+        if (!wantc.empty())
+        {
+            V_CHECK(ck.size() == 1, "C05/request-cookie-line", ctx + ": " + std::to_string(ck.size()) + " Cookie lines");
+            std::string cur;
+            for (size_t i = 0; i <= ck[0].size(); ++i)
+            {
+                if (i == ck[0].size() || ck[0][i] == ';')
+                {
+                    while (!cur.empty() && cur.front() == ' ')
+                        cur.erase(0, 1);
+                    V_CHECK(gotc.insert(cur).second, "C05/request-cookie-line", ctx + ": cookie pair repeated: " + printable(ck[0]));
+                    cur.clear();
+                }
+                else
+                    cur.push_back(ck[0][i]);
+            }
+            V_CHECK(gotc == wantc, "C05/request-cookie-line", ctx + ": Cookie line \"" + printable(ck[0]) + "\" does not list exactly the cookies set");
+        }
+        return Verdict::pass();
+    }
+}
+
 namespace verif
 {
     HarnessInfo harness_info() { return { "C05", 400 }; }
@@ -194,11 +365,16 @@ namespace verif
     {
         g_shared = std::make_shared<Shared>();
         g_default.start(std::make_shared<SpecHandler>(g_shared), 1);
+        start_capture();
+        g_client.reset(new Http::Experimental::Client());
+        g_client->init(Http::Experimental::Client::options().threads(1).maxConnectionsPerHost(2));
     }
 
     Verdict run_case(const uint8_t* data, size_t size, Report& rep)
     {
         Choices c(data, size);
+        if (c.pick(4) == 0)
+            return request_half(c, rep);
         RespSpec spec = respgen::make(c, true, 70000);
         unsigned lim  = c.pick(12); // 0-4: limit variants for fixed responses
         rep.label(spec.streamed ? "streamed" : "fixed");
